@@ -67,6 +67,10 @@ def _item_by_key(value, key, keys, i = None):
         else:
             return value
 
+def _as_type(value, values):
+    """a list / tuple of the type of value holding values: a namedtuple takes its fields one by one"""
+    return type(value)._make(values) if hasattr(type(value), '_make') else type(value)(values)
+
 def _item_by_i(value, i, n):
     if is_df(value) and value.shape[1] == 1:
         value = value.iloc[:,0]
@@ -76,7 +80,7 @@ def _item_by_i(value, i, n):
         if len(value) == n:
             return value[i]
         else:
-            return type(value)([_item_by_i(v, i, n) for v in value])
+            return _as_type(value, [_item_by_i(v, i, n) for v in value])
     elif is_array(value):
         if len(value.shape) == 2 and value.shape[-1] == n:
             return value.T[i]
@@ -235,7 +239,7 @@ class loops(wrapper):
         elif isinstance(arg, self.types) and not isinstance(arg, dict):
             n = len(arg)
             res = [self._wrapped(arg[i], tuple(_item_by_i(a,i,n) for a in args), {k: _item_by_i(v,i,n) for k, v in kwargs.items()}) for i in range(n)]                            
-            return type(arg)(res)
+            return _as_type(arg, res)
         else:
             return self.function(arg, *args, **kwargs)
 
